@@ -32,7 +32,7 @@ SecRequestBodyLimitAction ProcessPartial
 SecResponseBodyAccess On
 SecResponseBodyLimit 64
 SecResponseBodyMimeType text/plain
-SecAuditEngine On
+SecAuditEngine RelevantOnly
 SecAuditLogParts ABCFHKZ
 SecAuditLogType verifc05
 SecAuditLogFormat json
@@ -62,23 +62,23 @@ SecRule REQUEST_HEADERS:x-do "@contains allowRequest" "id:1041,phase:1,allow:req
 SecRule REQUEST_HEADERS:x-do "@contains tfCache" "id:1042,phase:5,pass,t:lowercase,t:trim"
 SecRule REQUEST_HEADERS:x-do "@contains skipAfter" "id:1051,phase:5,pass,skipAfter:NOWHERE"
 SecRule REQUEST_HEADERS:x-do "@contains skip," "id:1050,phase:5,pass,skip:7"
-SecRule ARGS:a "@streq x" "id:2001,phase:2,pass,log"
-SecRule ARGS "@streq x" "id:2002,phase:2,pass,log"
-SecRule ARGS:b "@streq y" "id:2011,phase:2,pass,log"
-SecRule ARGS_POST:d "@rx ." "id:2012,phase:2,pass,log"
-SecRule TX:leak "@eq 1" "id:2003,phase:2,pass,log"
-SecRule TX:0 "@rx ." "id:2004,phase:2,pass,log"
-SecRule TX:1 "@rx ." "id:2005,phase:2,pass,log"
-SecRule &TX:score "@gt 0" "id:2006,phase:2,pass,log"
-SecRule REQUEST_BODY "@contains x" "id:2007,phase:2,pass,log"
-SecRule MATCHED_VARS "@rx ." "id:2008,phase:1,pass,log"
-SecRule RESPONSE_BODY "@contains r" "id:2009,phase:4,pass,log"
-SecAction "id:2101,phase:1,pass,log"
-SecAction "id:2102,phase:2,pass,log"
-SecAction "id:2103,phase:3,pass,log"
-SecAction "id:2104,phase:4,pass,log"
-SecAction "id:2105,phase:5,pass,log"
-SecRule REQUEST_HEADERS:x-probe "@contains deny" "id:2010,phase:2,deny,status:418"
+SecRule ARGS:a "@streq x" "id:2001,phase:2,pass,nolog"
+SecRule ARGS "@streq x" "id:2002,phase:2,pass,nolog"
+SecRule ARGS:b "@streq y" "id:2011,phase:2,pass,nolog"
+SecRule ARGS_POST:d "@rx ." "id:2012,phase:2,pass,nolog"
+SecRule TX:leak "@eq 1" "id:2003,phase:2,pass,nolog"
+SecRule TX:0 "@rx ." "id:2004,phase:2,pass,nolog"
+SecRule TX:1 "@rx ." "id:2005,phase:2,pass,nolog"
+SecRule &TX:score "@gt 0" "id:2006,phase:2,pass,nolog"
+SecRule REQUEST_BODY "@contains x" "id:2007,phase:2,pass,nolog"
+SecRule MATCHED_VARS "@rx ." "id:2008,phase:1,pass,nolog"
+SecRule RESPONSE_BODY "@contains r" "id:2009,phase:4,pass,nolog"
+SecAction "id:2101,phase:1,pass,nolog"
+SecAction "id:2102,phase:2,pass,nolog"
+SecAction "id:2103,phase:3,pass,nolog"
+SecAction "id:2104,phase:4,pass,nolog"
+SecAction "id:2105,phase:5,pass,nolog"
+SecRule REQUEST_HEADERS:x-probe "@contains deny" "id:2010,phase:2,deny,status:418,log,auditlog"
 `
 
 type c05Audit struct {
